@@ -67,6 +67,8 @@ type groupSample struct {
 	sampleID uint64
 	pos      int
 	v        float64
+	// matchedT is the last step at which a pair of this group was kept (one-to-one matches).
+	matchedT int64
 }
 
 type table struct {
@@ -92,6 +94,7 @@ func newTable(
 	groups := make([]groupSample, index.numGroups)
 	for i := range groups {
 		groups[i].t = math.MinInt64
+		groups[i].matchedT = math.MinInt64
 	}
 	outputT := make([]int64, numOutputs)
 	for i := range outputT {
@@ -140,7 +143,7 @@ func (t *table) execBinaryOperation(lhs model.StepVector, rhs model.StepVector, 
 		if g < 0 {
 			continue
 		}
-		group := t.groups[g]
+		group := &t.groups[g]
 		if group.t != ts {
 			continue
 		}
@@ -160,7 +163,14 @@ func (t *table) execBinaryOperation(lhs model.StepVector, rhs model.StepVector, 
 		}
 
 		outputSampleID := t.index.highOut[sampleID][group.pos]
-		if t.outputT[outputSampleID] == ts {
+		if t.card == parser.CardOneToOne {
+			// A one-to-one match keeps at most one pair per match group, whatever the labels of
+			// the results are (comparisons keep the metric name of the left hand side).
+			if group.matchedT == ts {
+				return model.StepVector{}, newMultipleMatchesError(t.card)
+			}
+			group.matchedT = ts
+		} else if t.outputT[outputSampleID] == ts {
 			return model.StepVector{}, newMultipleMatchesError(t.card)
 		}
 		t.outputT[outputSampleID] = ts
